@@ -75,6 +75,13 @@ def gen(ctx):
         tcs = [c for c in s["comps"] if c["kind"] == "time"]
         c = ctx.rng.choice(tcs)
         c["finish_at"] = c["start"] + ctx.rng.randint(1, max(2, s["end"] // 2))
+    tcs = [c for c in s["comps"] if c["kind"] == "time"]
+    if len(tcs) >= 2 and ctx.rng.random() < 0.2:
+        # one component only learns its time during connect (the composition's start comes from the others)
+        # and it starts at the composition's start time, like `TimeTrigger(start=None)` does
+        late = ctx.rng.choice(tcs)
+        late["late_time"] = True
+        late["start"] = min(c["start"] for c in tcs if c is not late)
     if ctx.rng.random() < 0.2:
         starts = [c["start"] for c in s["comps"] if c["kind"] == "time"]
         s["end"] = min(starts) + ctx.rng.choice([0, 1])  # end at / just after the start
